@@ -107,9 +107,7 @@ def run(repo, chk):
     chk.ob("R07.3", "overlay.HandlerCollection.proceed:matched-levels-stay-pending", ok, pr.where,
            "a non-immediate selector level is carried into every callee whether or not it matched here (same accumulator): re-entered nested calls keep contributing their values to the outermost call's record"
            + (f" (conditions of the carry: {conds(P.keeps[0], P.loop)})" if P.keeps else " (no carry found)"))
-    gets = [n for n in ast.walk(P.loop) if isinstance(n, ast.Assign) and isinstance(n.value, ast.Call) and norm(n.value.func) == "_selector_fit_cache.get"]
-    ok = len(gets) == 1 and expand(gets[0].value, pr.node) == f"_selector_fit_cache.get(({P.fn}, {P.sel}))" \
-        and all(expand(t, pr.node) == f"_selector_fit_cache[{P.fn}, {P.sel}]" for n in ast.walk(pr.node) if isinstance(n, ast.Assign) for t in n.targets if norm(t).startswith("_selector_fit_cache["))
+    ok = P.memo.ok and P.memo.key == f"({P.fn}, {P.sel})"
     chk.ob("R07.3", "overlay.HandlerCollection.proceed:fit-decided-per-function-object", ok, pr.where,
            "whether a call belongs to a selector level is remembered per function OBJECT and selector: two functions that share a name (closures of one factory) are never taken for one another, so a record only holds values of calls that match")
     # ---------------- R07.4
@@ -128,7 +126,7 @@ def run(repo, chk):
         why = f"`{t}` runs when {[x for x in c if 'names' in x]}"
     chk.ob("R07.4", "interpret.Total.close:record-iff-all-names-captured", ok, tc.where,
            f"a leaf's record is emitted iff the set of captured names equals the required names ({why}): incomplete calls produce no record, and nothing is emitted with missing variables")
-    ok = len(closes) == 1 and ftc.loops(closes[0][2]) == [f"for {norm(closes[0][2].func.value)} in self.leaves() or [self]"]
+    ok = len(closes) == 1 and ftc.loops(closes[0][2]) == [f"for {norm(closes[0][2].func.value)} in self.leaves() or (self,)"]
     chk.ob("R07.4", "interpret.Total.close:one-record-per-leaf", ok, tc.where, "one record per leaf (per binding of the focus), each built from the leaf's own captures plus its parents'")
     ti = repo.func("interpret.Total.__init__")
     fti = facts_of(ti)
